@@ -237,6 +237,20 @@ func (env *Env) importedPkg(name string) *types.Package {
 	if _, shadow := env.vars[name]; shadow {
 		return nil
 	}
+	// the import as the source file of the function under contract sees it (local aliases, same-named packages);
+	// when no position is known, any file of the package that imports under this name
+	pos := token.NoPos
+	if f := env.ex.fn; f != nil && f.Pkg != nil && f.Pkg.Pkg == env.pkg {
+		pos = f.Pos()
+	}
+	if p := env.ex.eng.fileImport(env.pkg, pos, name); p != nil {
+		return p
+	}
+	if pos != token.NoPos {
+		if p := env.ex.eng.fileImport(env.pkg, token.NoPos, name); p != nil {
+			return p
+		}
+	}
 	for _, imp := range env.pkg.Imports() {
 		if imp.Name() == name {
 			return imp
